@@ -1,11 +1,11 @@
-\* C04: shapes no-auth / A (CLAIMTOBE) / B (TOKEN) / resumed, encryption REQUIRED on both ends,
+\* C04: shapes no-auth / A (CLAIMTOBE) / B (TOKEN) / resumed, encryption REQUIRED / PREFERRED / OPTIONAL (client) x REQUIRED / OPTIONAL (server): every handshake that ENDS with encryption on,
 \* two relay actions anywhere on any cleartext frame, every interleaving, endpoints may abort once tampered.
 SPECIFICATION Spec
 CONSTANTS
   CAuth = {"PREFERRED"}
   SAuth = {"PREFERRED"}
-  CEnc = {"REQUIRED"}
-  SEnc = {"REQUIRED"}
+  CEnc = {"REQUIRED", "PREFERRED", "OPTIONAL"}
+  SEnc = {"REQUIRED", "OPTIONAL"}
   CMethods <- ListsC04
   SMethods <- ListsC04
   CCiphers <- OnlyAES
